@@ -5,9 +5,13 @@ import Dawn.Ties.RunnerExpected
 Tie 1 for C04, C05, C09: the facts regenerated from `runner/runner.go` on this run are the ones the model
 `Dawn/Model/Runner.lean` is written against. Each theorem is re-checked by the kernel on every run.
 
-The order facts the proofs rely on are stated on their own (a change that breaks one of them names the
-argument it invalidates), the rest of every function — its synchronisation skeleton, hook call sites
-included — is compared with the snapshot taken when the model was written.
+The ties are split over four modules so that a change to one mechanism leaves the obligations about the
+others discharged: this one (completeness of the extraction), `RunnerGate` (the gate and where it is entered
+and left: C09, C05), `RunnerTarget` (status, start, wait, run, Run: C04, C05) and `RunnerEval`
+(`EvaluateTargets` and the cycle walk: C04, C05). The order facts the proofs rely on are stated on their own
+(a change that breaks one names the argument it invalidates); the rest of every function — its
+synchronisation skeleton, hook call sites included — is compared with the snapshot taken when the model was
+written (`RunnerExpected.lean`, `bin/accept-extracted Runner`).
 -/
 namespace Dawn.Ties.Runner
 open Dawn
@@ -16,63 +20,5 @@ theorem extraction_complete : Extracted.Runner.extractionErrors = [] := by decid
 
 /-- no function with synchronisation of its own has been added to `runner.go` -/
 theorem no_other_funcs : Extracted.Runner.otherFuncs = [] := by decide
-
-/-- `EvaluateTargets` performs its operations in the order of the model's program counters -/
-theorem eval_order_ok : Extracted.Runner.evalOrder = Runner.evalOrder := by decide
-
-/-- deadlock freedom (the walk invariant) needs: the waiting set is published *before* the cycle walk -/
-theorem publish_before_walk :
-    Extracted.Runner.evalOrder.idxOf "Swap" < Extracted.Runner.evalOrder.idxOf "if(checkDeps)" ∧
-    Extracted.Runner.evalOrder.idxOf "if(checkDeps)" < Extracted.Runner.evalOrder.idxOf "range(wait)" ∧
-    "Swap" ∈ Extracted.Runner.evalOrder ∧ "if(checkDeps)" ∈ Extracted.Runner.evalOrder ∧
-    "range(wait)" ∈ Extracted.Runner.evalOrder := by decide
-
-/-- C09 (a waiting target holds no slot) and deadlock freedom with limit one need: the slot is released before
-    the dependency wait and re-acquired (deferred) after it -/
-theorem exit_before_wait :
-    Extracted.Runner.evalOrder.idxOf "gate.exit" < Extracted.Runner.evalOrder.idxOf "range(wait)" ∧
-    Extracted.Runner.evalOrder.idxOf "gate.exit" < Extracted.Runner.evalOrder.idxOf "range(getTarget,start)" ∧
-    "gate.exit" ∈ Extracted.Runner.evalOrder ∧ "defer(gate.enter)" ∈ Extracted.Runner.evalOrder := by decide
-
-/-- every dependency is started before the waiting set is published (so a waited-for target is never idle) -/
-theorem start_before_publish :
-    Extracted.Runner.evalOrder.idxOf "range(getTarget,start)" < Extracted.Runner.evalOrder.idxOf "Swap" ∧
-    "range(getTarget,start)" ∈ Extracted.Runner.evalOrder := by decide
-
-/-- the waiting set is withdrawn when `EvaluateTargets` returns (deferred right after publication) -/
-theorem unpublish_deferred :
-    Extracted.Runner.evalOrder.idxOf "defer(Swap(nil))" = Extracted.Runner.evalOrder.idxOf "Swap" + 1 := by decide
-
-/-- `(*target).run`: enter, load, evaluate, set the status under the lock, broadcast, exit, Done -/
-theorem run_order_ok : Extracted.Runner.runOrder = Runner.runOrder := by decide
-
-/-- `Run`: start the requested target, wait for it, wait for every started target (D17) -/
-theorem main_order_ok : Extracted.Runner.mainOrder = Runner.mainOrder := by decide
-
-/-- both condition waits are `for` loops re-testing the model's guard (`status == running`, `capacity == 0`) -/
-theorem wait_is_loop : Extracted.Runner.waitLoops = Runner.waitLoops := by decide
-
-/-- C09: the limit is the number of CPUs -/
-theorem gate_is_numcpu : Extracted.Runner.gateArg = "runtime.NumCPU()" := by decide
-
-/-- `Status`: idle is the zero value of a fresh target -/
-theorem status_order : Extracted.Runner.statusConsts =
-    ["statusIdle=iota", "statusRunning", "statusSucceeded", "statusFailed"] := by decide
-
-/-! the synchronisation skeleton of every function: unchanged since the model was written -/
-
-theorem skel_newTarget_ok : Extracted.Runner.skel_newTarget = Expected.Runner.skel_newTarget := rfl
-theorem skel_start_ok : Extracted.Runner.skel_target_start = Expected.Runner.skel_target_start := rfl
-theorem skel_wait_ok : Extracted.Runner.skel_target_wait = Expected.Runner.skel_target_wait := rfl
-theorem skel_run_ok : Extracted.Runner.skel_target_run = Expected.Runner.skel_target_run := rfl
-theorem skel_check_ok : Extracted.Runner.skel_engine_check = Expected.Runner.skel_engine_check := rfl
-theorem skel_checkDeps_ok : Extracted.Runner.skel_engine_checkDeps = Expected.Runner.skel_engine_checkDeps := rfl
-theorem skel_EvaluateTargets_ok :
-    Extracted.Runner.skel_engine_EvaluateTargets = Expected.Runner.skel_engine_EvaluateTargets := rfl
-theorem skel_newGate_ok : Extracted.Runner.skel_newGate = Expected.Runner.skel_newGate := rfl
-theorem skel_enter_ok : Extracted.Runner.skel_gate_enter = Expected.Runner.skel_gate_enter := rfl
-theorem skel_exit_ok : Extracted.Runner.skel_gate_exit = Expected.Runner.skel_gate_exit := rfl
-theorem skel_getTarget_ok : Extracted.Runner.skel_runner_getTarget = Expected.Runner.skel_runner_getTarget := rfl
-theorem skel_Run_ok : Extracted.Runner.skel_Run = Expected.Runner.skel_Run := rfl
 
 end Dawn.Ties.Runner
